@@ -112,6 +112,22 @@ def build(tier, seed, exclude):
             err = _differ(ta, tb, "shell field {name}: argv %r vs %r" % (_argv(ta), _argv(tb)))
             return T.fail(err) if err else True
         """, timeout=to)
+    # a task class derived from another one and overriding only field metadata (parent hashed first / second)
+    g.cond("h_shell_inherited", "child_first: bool, i: int", ["0 <= i < 4"], """
+        pool = ["x", "y1", "a.b", "/p"]
+        Parent = shell.define("echo", inputs={"text": shell.arg(type=str, argstr="", position=1)}, name="Parent")
+        Child = shell.define("echo", inputs={"text": shell.arg(type=str, argstr="--{text}", position=1)}, bases=[Parent], name="Child")
+        tp, tc = Parent(text=pool[T.real(i)]), Child(text=pool[T.real(i)])
+        HH.reset()
+        if T.real(child_first):
+            c2, c1 = tc._checksum, tp._checksum
+        else:
+            c1, c2 = tp._checksum, tc._checksum
+        T.reach()
+        if _argv(tp) != _argv(tc) and c1 == c2:
+            return T.fail(lambda: "derived task class with a different argstr shares its parent's identity: %r vs %r" % (_argv(tp), _argv(tc)))
+        return True
+    """, timeout=to)
     # input values: content / type (symbolic)
     g.cond("h_input_value", "x: int, y: int", ["x != y"], """
         from vf.hl import c07defs as D
